@@ -116,6 +116,42 @@ func (p c07) Gen(r *simhook.Rand, tier string, idx int) harness.Scenario {
 		sc.Probes, sc.Probes2 = nil, nil
 		return sc
 	}
+	if r.Chance(1, 12) {
+		// class "open-migration": the only node the proxy may ask for the layout is in the middle of migrating one of
+		// its slots away (a slow migration: its own CLUSTER NODES line carries the [slot->-node] marker for minutes)
+		// when another of its slots changes owner.  The redirection for that slot must lead to a refresh round that
+		// picks up the new layout although the reply describes a migration in progress.
+		sc.Class = "open-migration"
+		sc.IdleFaults = false
+		sc.Env = world.RedisCfg{Masters: 2}
+		src := r.Intn(2)
+		sc.Env.SeedNodes = []int{src}
+		keys = keysForNodes(r, 2, "h", 3)
+		k := keys[src][r.Intn(len(keys[src]))]
+		slot := cluster.Slot([]byte(k))
+		tag := ""
+		for i := 0; ; i++ {
+			tag = fmt.Sprintf("{om%d}", i)
+			if s := cluster.Slot([]byte(tag)); s != slot && s/(cluster.NumSlots/2) == src {
+				break
+			}
+		}
+		for i := 0; i < 5; i++ {
+			sc.Env.Preload = append(sc.Env.Preload, world.KV{K: world.Bin(fmt.Sprintf("%s%d", tag, i)), V: world.Bin(uniqueVal("om", i, 8))})
+		}
+		sc.MigStepMs = 50000
+		sc.SlackMs = []int{0, 1, 1000}[r.Intn(3)]
+		sc.Conns = []ConnScript{{Name: "c0", Reqs: []world.Request{
+			{Args: world.Bins("GET", k), Wait: true},
+			{Args: world.Bins("GET", k), Wait: true, Gap: 60000},
+		}}}
+		sc.Faults = []Fault{
+			{Kind: "layout", From: slot, To: slot, Dst: 1 - src, OnCmd: "cluster", Nth: 2 + r.Intn(2)},
+			{Kind: "mig-start", From: cluster.Slot([]byte(tag)), Dst: 1 - src, OnCmd: "cluster", Nth: 1},
+		}
+		sc.Probes, sc.Probes2 = nil, nil
+		return sc
+	}
 	if r.Chance(1, 10) && m >= 2 {
 		// class "replica-move": reads may go to replicas; one replica is re-attached to another master (the masters
 		// keep their ids, addresses and slots). After the refresh rounds that the first redirection triggers, reads
@@ -197,7 +233,7 @@ func (p c07) Gen(r *simhook.Rand, tier string, idx int) harness.Scenario {
 func (p c07) Run(t *testing.T, s harness.Scenario) harness.Outcome {
 	sc := s.(*RedisScenario)
 	w := newRedisWorld(sc)
-	if sc.Class == "refresh-in-flight" {
+	if sc.Class == "refresh-in-flight" || sc.Class == "open-migration" {
 		return p.runRefreshInFlight(t, sc, w)
 	}
 	w.fin = func(w *redisWorld) *simrtViolation {
